@@ -1,6 +1,7 @@
 package main
 
 import (
+	"fmt"
 	"go/constant"
 	"go/token"
 	"go/types"
@@ -185,7 +186,27 @@ func dominates(a, b ssa.Instruction) bool {
 		}
 		return false
 	}
-	return a.Block().Dominates(b.Block())
+	if a.Block().Dominates(b.Block()) {
+		return true
+	}
+	return executedBefore(a, b)
+}
+
+// executedBefore: a (a call) has been executed on every *feasible* path that
+// reaches b, by the must-facts of E2 — which, unlike dominance, know that an
+// edge guarded by `err != nil` is not taken after the calls that must have
+// succeeded for the merged err to be nil (the shape produced by an error
+// returned from a helper and tested by its caller).
+func executedBefore(a, b ssa.Instruction) bool {
+	if _, ok := a.(ssa.CallInstruction); !ok || a.Parent() == nil || a.Parent() != b.Parent() {
+		return false
+	}
+	ff := computeFacts(a.Parent())
+	n, ok := ff.doneIDs[a]
+	if !ok {
+		return false
+	}
+	return ff.hasName(b, fmt.Sprintf("done:%d", n), fTRUE, "")
 }
 
 // reachableFrom reports whether block `to` is reachable from block `from`
